@@ -421,6 +421,11 @@ void Polygon::apply_repetition(Array<Polygon*>& result) {
     Array<Vec2> offsets = {};
     repetition.get_offsets(offsets);
     repetition.clear();
+    if (offsets.count < 2) {
+        // Empty lattice (0 columns or rows) or only the zero vector: no copies to create.
+        offsets.clear();
+        return;
+    }
 
     // Skip first offset (0, 0)
     Vec2* offset_p = offsets.items + 1;
